@@ -110,6 +110,180 @@ theorem des_iv_agrees (pp preIv : Bytes) (h1 : pp.length = 8) (h2 : preIv.length
   have hl : (xorBytes pp preIv).length = 8 := by rw [xorBytes_length]; omega
   rw [← hl, List.take_length]
 
+/-! ## A reply encrypted as the RFCs prescribe is decrypted to exactly its content -/
+
+theorem chunks_of_blocks (n : Nat) (hn : 0 < n) : ∀ (bs : List Bytes), (∀ b ∈ bs, b.length = n) →
+    chunks n bs.flatten = bs
+  | [], _ => by unfold chunks; simp
+  | b :: rest, h => by
+    have hb : b.length = n := h b (by simp)
+    have hne : b ≠ [] := by intro e; rw [e] at hb; simp at hb; omega
+    unfold chunks
+    rw [dif_neg (by
+      intro hc
+      rcases hc with hc | hc
+      · omega
+      · simp only [List.flatten_cons, List.append_eq_nil_iff] at hc; exact hne hc.1)]
+    simp only [List.flatten_cons]
+    rw [List.take_left' hb, List.drop_left' hb]
+    rw [chunks_of_blocks n hn rest (fun x hx => h x (by simp [hx]))]
+
+theorem cbcEncBlocks_len (E : Bytes → Bytes) (hE : ∀ b, (E b).length = 8) : ∀ (ps : List Bytes) (iv : Bytes),
+    ∀ c ∈ cbcEncBlocks E iv ps, c.length = 8
+  | [], _, c, hc => by simp [cbcEncBlocks] at hc
+  | p :: ps, iv, c, hc => by
+    simp only [cbcEncBlocks, List.mem_cons] at hc
+    rcases hc with rfl | hc
+    · exact hE _
+    · exact cbcEncBlocks_len E hE ps _ c hc
+
+/-- CBC decryption undoes CBC encryption on whole octet strings of a multiple of 8 octets -/
+theorem cbcDec_cbcEnc (C : Ciphers) (hC : C.WF) (key iv pt : Bytes) (hiv : iv.length = 8) (hm : pt.length % 8 = 0) :
+    cbcDec (C.desDec key) iv (cbcEnc (C.desEnc key) iv pt) = pt := by
+  unfold cbcDec cbcEnc
+  rw [chunks_of_blocks 8 (by decide) _ (cbcEncBlocks_len _ (hC.desEnc_len key) _ _)]
+  rw [cbc_inverse _ _ (hC.des_inv key) (hC.desEnc_len key) _ iv hiv (chunks_eq 8 pt hm)]
+  exact chunks_flatten 8 (by decide) pt
+
+theorem cbcEnc_length (C : Ciphers) (hC : C.WF) (key iv pt : Bytes) (hm : pt.length % 8 = 0) :
+    (cbcEnc (C.desEnc key) iv pt).length = pt.length := by
+  have hgen : ∀ (ps : List Bytes) (iv : Bytes), (∀ p ∈ ps, p.length = 8) →
+      (cbcEncBlocks (C.desEnc key) iv ps).flatten.length = ps.flatten.length := by
+    intro ps
+    induction ps with
+    | nil => intro iv _; rfl
+    | cons p ps ih =>
+      intro iv hp
+      simp only [cbcEncBlocks, List.flatten_cons, List.length_append]
+      rw [ih _ (fun x hx => hp x (by simp [hx])), hC.desEnc_len, hp p (by simp)]
+  unfold cbcEnc
+  rw [hgen _ iv (chunks_eq 8 pt hm), chunks_flatten 8 (by decide)]
+
+/-- **C11.des_reply_roundtrip**: a reply whose msgData is the DES-CBC encryption (key and IV as RFC 3414
+8.1.1.1 derives them from the localized key and the transmitted salt) of a scoped PDU followed by any
+padding up to a multiple of 8 octets is decrypted by the session to exactly that scoped PDU, whatever the
+private buffer held before -/
+theorem des_reply_roundtrip (C : Ciphers) (hC : C.WF) (key preIv : Bytes) (salt : Nat) (buf : Buf) (pt pp : Bytes)
+    (usm : Usm) (s : ScopedPdu) (hpp : usm.privacyParams = pp) (hppl : pp.length = 8) (hpre : preIv.length = 8)
+    (hm : pt.length % 8 = 0) (hfit : pt.length ≤ Buf.cap) (hs : scopedTryFrom pt = .ok s) :
+    ∃ buf', (PrivKey.des key preIv salt buf).decrypt C (cbcEnc (C.desEnc key) (xorBytes pp preIv) pt) usm =
+      .ok (s, .des key preIv salt buf') := by
+  have hivl : (xorBytes pp preIv).length = 8 := by rw [xorBytes_length]; omega
+  have hctl := cbcEnc_length C hC key (xorBytes pp preIv) pt hm
+  unfold PrivKey.decrypt
+  simp only [hpp, des_iv_agrees pp preIv hppl hpre]
+  have hsk : ((buf.reset).skip (cbcEnc (C.desEnc key) (xorBytes pp preIv) pt).length).cells.length = pt.length := by
+    rw [hctl]
+    simp only [Buf.skip, Buf.reset, Buf.pos, List.length_append, List.length_replicate, List.length_nil]
+    simp only [Buf.cap] at hfit ⊢
+    omega
+  rw [if_neg (by
+    simp only [Bool.or_eq_true, decide_eq_true_eq, not_or, Nat.not_lt, ne_eq, Decidable.not_not]
+    exact ⟨by rw [hctl]; exact hm, by simp only [Buf.len]; rw [hsk, hctl]; exact Nat.le_refl _⟩)]
+  rw [cbcDec_cbcEnc C hC key _ pt hivl hm]
+  rw [overwrite_data _ _ (by rw [hsk])]
+  simp only [bind_ok, hs, pure_eq]
+  exact ⟨_, rfl⟩
+
+theorem chunks_same_shape (n : Nat) : ∀ (x : Bytes) (L : List Bytes),
+    L.map List.length = (chunks n x).map List.length → chunks n L.flatten = L := by
+  intro x
+  induction hl : x.length using Nat.strongRecOn generalizing x with
+  | _ l ih =>
+    intro L hL
+    unfold chunks at hL
+    split at hL
+    · simp only [List.map_nil, List.map_eq_nil_iff] at hL
+      subst hL
+      unfold chunks; simp
+    · rename_i hc
+      have hn : n ≠ 0 := fun e => hc (Or.inl e)
+      have hx : x ≠ [] := fun e => hc (Or.inr e)
+      have hxl : 0 < x.length := List.length_pos_iff.mpr hx
+      cases L with
+      | nil => simp at hL
+      | cons a L' =>
+        simp only [List.map_cons, List.cons.injEq, List.length_take] at hL
+        obtain ⟨ha, hL'⟩ := hL
+        have hane : a ≠ [] := by intro e; rw [e] at ha; simp at ha; omega
+        by_cases hfull : n ≤ x.length
+        · have han : a.length = n := by omega
+          have := ih (x.drop n).length (by rw [List.length_drop]; omega) (x.drop n) rfl L' hL'
+          unfold chunks
+          rw [dif_neg (by
+            intro h; rcases h with h | h
+            · exact hn h
+            · simp only [List.flatten_cons, List.append_eq_nil_iff] at h; exact hane h.1)]
+          simp only [List.flatten_cons]
+          rw [List.take_left' han, List.drop_left' han, this]
+        · have hdrop : x.drop n = [] := List.drop_eq_nil_of_le (by omega)
+          rw [hdrop] at hL'
+          have hnil : chunks n ([] : Bytes) = [] := by unfold chunks; simp
+          rw [hnil] at hL'
+          simp only [List.map_nil, List.map_eq_nil_iff] at hL'
+          subst hL'
+          have hal : a.length ≤ n := by omega
+          unfold chunks
+          rw [dif_neg (by
+            intro h; rcases h with h | h
+            · exact hn h
+            · simp only [List.flatten_cons, List.flatten_nil, List.append_nil] at h; exact hane h)]
+          simp only [List.flatten_cons, List.flatten_nil, List.append_nil]
+          rw [List.take_of_length_le hal, List.drop_eq_nil_of_le hal, hnil]
+
+theorem cfbEncBlocks_shape (E : Bytes → Bytes) (hE : ∀ b, (E b).length = 16) : ∀ (ps : List Bytes) (iv : Bytes),
+    (∀ p ∈ ps, p.length ≤ 16) → (cfbEncBlocks E iv ps).map List.length = ps.map List.length
+  | [], _, _ => rfl
+  | p :: ps, iv, hp => by
+    have h16 := hp p (by simp)
+    simp only [cfbEncBlocks, List.map_cons]
+    rw [cfbEncBlocks_shape E hE ps _ (fun x hx => hp x (by simp [hx])), xorBytes_length, hE]
+    congr 1
+    omega
+
+/-- CFB-128 decryption undoes CFB-128 encryption on octet strings of any length -/
+theorem cfbDec_cfbEnc (C : Ciphers) (hC : C.WF) (key iv pt : Bytes) :
+    cfbDec (C.aesEnc key) iv (cfbEnc (C.aesEnc key) iv pt) = pt := by
+  unfold cfbDec cfbEnc
+  rw [chunks_same_shape 16 pt _ (cfbEncBlocks_shape _ (hC.aesEnc_len key) _ iv (chunks_le 16 pt))]
+  rw [cfb_inverse _ (hC.aesEnc_len key) _ iv (chunks_le 16 pt)]
+  exact chunks_flatten 16 (by decide) pt
+
+theorem cfbEnc_length (C : Ciphers) (hC : C.WF) (key iv pt : Bytes) :
+    (cfbEnc (C.aesEnc key) iv pt).length = pt.length := by
+  have h := congrArg (fun (l : List Nat) => l.sum)
+    (cfbEncBlocks_shape _ (hC.aesEnc_len key) (chunks 16 pt) iv (chunks_le 16 pt))
+  unfold cfbEnc
+  rw [List.length_flatten, h, ← List.length_flatten, chunks_flatten 16 (by decide)]
+
+/-- **C11.aes_reply_roundtrip**: a reply whose msgData is the AES-128-CFB encryption (IV = engine boots ‖
+engine time ‖ transmitted salt, RFC 3826 3.1.2.1) of a scoped PDU followed by anything is decrypted by the
+session to exactly that scoped PDU, whatever the private buffer held before -/
+theorem aes_reply_roundtrip (C : Ciphers) (hC : C.WF) (key : Bytes) (salt : Nat) (buf : Buf) (pt : Bytes)
+    (usm : Usm) (s : ScopedPdu) (hppl : usm.privacyParams.length = 8) (hfit : pt.length ≤ Buf.cap)
+    (hs : scopedTryFrom pt = .ok s) :
+    ∃ buf', (PrivKey.aes key salt buf).decrypt C
+        (cfbEnc (C.aesEnc key)
+          (beBytes 4 (asU32 usm.engineBoots) ++ beBytes 4 (asU32 usm.engineTime) ++ usm.privacyParams) pt) usm =
+      .ok (s, .aes key salt buf') := by
+  have hctl := cfbEnc_length C hC key
+    (beBytes 4 (asU32 usm.engineBoots) ++ beBytes 4 (asU32 usm.engineTime) ++ usm.privacyParams) pt
+  unfold PrivKey.decrypt
+  simp only
+  rw [if_neg (by simp only [ne_eq, Decidable.not_not]; rw [hppl]; decide)]
+  have hsk : ((buf.reset).skip (cfbEnc (C.aesEnc key)
+      (beBytes 4 (asU32 usm.engineBoots) ++ beBytes 4 (asU32 usm.engineTime) ++ usm.privacyParams) pt).length).cells.length
+      = pt.length := by
+    rw [hctl]
+    simp only [Buf.skip, Buf.reset, Buf.pos, List.length_append, List.length_replicate, List.length_nil]
+    simp only [Buf.cap] at hfit ⊢
+    omega
+  rw [if_neg (by simp only [ne_eq, Decidable.not_not, Buf.len]; rw [hsk, hctl])]
+  rw [cfbDec_cfbEnc C hC key _ pt]
+  rw [overwrite_data _ _ (by rw [hsk])]
+  simp only [bind_ok, hs, pure_eq]
+  exact ⟨_, rfl⟩
+
 /-! Non-vacuity: the hypotheses are satisfiable -/
 example : encScoped ⟨[1, 2, 3], .getRequest 5 [[43, 6]]⟩ ≠ none := by simp [encScoped, encPdu]
 
